@@ -746,10 +746,15 @@ func (b *Block) getNumVoxels(labelIndex uint32) (labelVoxels uint64) {
 					}
 					indexPos++
 				}
+				bits := int(bitsFor(numSBLabels))
 				if !found {
+					// skip this sub-block's packed values so later sub-blocks are read at the right position
+					bitpos += int(subBlockNumVoxels) * bits
+					if bitpos%8 != 0 {
+						bitpos += 8 - (bitpos % 8)
+					}
 					continue
 				}
-				bits := int(bitsFor(numSBLabels))
 
 				var x, y, z int32
 				for z = 0; z < SubBlockSize; z++ {
